@@ -121,3 +121,4 @@ from engine.harness import borrowed  # noqa: E402
 HARNESSES.append(borrowed("c12", "H12-consume-rabbit", "H01-rabbit-expired"))
 HARNESSES.append(borrowed("c12", "H12-consume-redis", "H01-redis-expired"))
 HARNESSES.append(borrowed("c03", "H03-rabbit-stop", "H01-rabbit-worker-stop"))
+HARNESSES.append(borrowed("c03", "H03-redis-twin-priorities", "H01-redis-twin-priorities"))   # HIGH/LOW priority messages taken and handed back around a stop
